@@ -612,7 +612,40 @@ fn all_field_names_legal(i: &GIface) -> bool {
     })
 }
 
+/// The process has a history: before the first derived description is parsed back, the parser has been handed a few
+/// hundred texts it must refuse (an inspection tool that has walked services speaking dialects zlink does not know):
+/// unknown type names, unbalanced brackets, deep nesting, junk. Whatever state a parser keeps between calls has seen
+/// all of that by then.
+fn parser_history(rep: &mut Report) {
+    thread_local! {
+        static DONE: std::cell::Cell<bool> = const { std::cell::Cell::new(false) };
+    }
+    if DONE.with(|d| d.replace(true)) {
+        return;
+    }
+    let mut refused = 0u64;
+    for k in 0..400usize {
+        let depth = 1 + k % 9;
+        let open = "?[](a: ".repeat(depth);
+        let text = match k % 8 {
+            0 => format!("interface a.b\nmethod M(x: {open}vendor-type) -> ()"),
+            1 => format!("interface a.b\ntype T (f: {open}"),
+            2 => format!("interface a.b\nmethod M() -> (r: {open}int"),
+            3 => format!("interface a.b\nerror E (x: [string]{open}??int{})", ")".repeat(depth)),
+            4 => format!("interface a.b\ntype T (f: [{depth}]int)"),
+            5 => format!("interface a.b\nmethod M(a: {}int{}) -> ()", "(b: ".repeat(40 + depth), ")".repeat(39)),
+            6 => format!("interface a.b\ntype T (a: (x, y: int))"),
+            _ => format!("interface a.b\nmethod M(x: {}unknown_type) -> ()", "[]".repeat(depth * 20)),
+        };
+        if vnet::catch(|| zlink_core::idl::Interface::try_from(text.as_str()).is_err()).unwrap_or(true) {
+            refused += 1;
+        }
+    }
+    rep.add("texts_refused_by_the_parser_before_the_first_round_trip", refused);
+}
+
 fn roundtrip(rep: &mut Report, name: &str, i: &zlink_core::idl::Interface<'_>, tree: &GIface) {
+    parser_history(rep);
     if !all_field_names_legal(tree) {
         rep.count("derived_descriptions_with_rust_names_outside_the_idl_grammar_not_rendered");
         return;
